@@ -118,21 +118,40 @@ fn edge_type(e: Edge, target: usize) -> Option<TypeExpr> {
     }
 }
 
+/// What one ordered pair (i -> j) may carry: nothing, one edge, or a list edge and a plain edge
+/// in either declaration order (field order matters to a search that marks types as visited).
+fn pair_options() -> Vec<Vec<Edge>> {
+    let mut v: Vec<Vec<Edge>> = vec![vec![]];
+    for e in [Edge::Nullable, Edge::NonNull, Edge::List, Edge::ListNN] {
+        v.push(vec![e]);
+    }
+    for l in [Edge::List, Edge::ListNN] {
+        for p in [Edge::Nullable, Edge::NonNull] {
+            v.push(vec![l, p]);
+            v.push(vec![p, l]);
+        }
+    }
+    v
+}
+
 const INPUT_NAMES: [&str; 4] = ["Alpha", "Bravo", "Cedar", "Delta"];
 const MEMBER_NAMES: [&str; 4] = ["toAlpha", "toBravo", "toCedar", "toDelta"];
 
 /// World for an input-type graph: edges[i][j] from type i to type j.
-fn graph_world(edges: &[Vec<Edge>], one_of: &[bool]) -> Option<World> {
+fn graph_world(edges: &[Vec<Vec<Edge>>], one_of: &[bool]) -> Option<World> {
     let n = edges.len();
     let mut inputs = Vec::new();
     for i in 0..n {
         let mut fields = vec![InputFieldDef { name: "leaf".into(), ty: TypeExpr::plain(Named::Int, false) }];
         for j in 0..n {
-            if let Some(ty) = edge_type(edges[i][j], j) {
-                if one_of[i] && ty.nonnull[0] {
-                    return None; // @oneOf members are nullable by definition
+            for (k, e) in edges[i][j].iter().enumerate() {
+                if let Some(ty) = edge_type(*e, j) {
+                    if one_of[i] && ty.nonnull[0] {
+                        return None; // @oneOf members are nullable by definition
+                    }
+                    let name = if k == 0 { MEMBER_NAMES[j].to_string() } else { format!("{}Also", MEMBER_NAMES[j]) };
+                    fields.push(InputFieldDef { name, ty });
                 }
-                fields.push(InputFieldDef { name: MEMBER_NAMES[j].into(), ty });
             }
         }
         inputs.push(InputT { name: INPUT_NAMES[i].into(), fields, one_of: one_of[i] });
@@ -156,14 +175,14 @@ fn graph_world(edges: &[Vec<Edge>], one_of: &[bool]) -> Option<World> {
 }
 
 /// Is there a cycle that does not pass through a list edge?
-fn has_listless_cycle(edges: &[Vec<Edge>]) -> bool {
+fn has_listless_cycle(edges: &[Vec<Vec<Edge>>]) -> bool {
     let n = edges.len();
     for s in 0..n {
         let mut stack = vec![s];
         let mut seen = vec![false; n];
         while let Some(c) = stack.pop() {
             for j in 0..n {
-                if matches!(edges[c][j], Edge::Nullable | Edge::NonNull) {
+                if edges[c][j].iter().any(|e| matches!(e, Edge::Nullable | Edge::NonNull)) {
                     if j == s {
                         return true;
                     }
@@ -180,14 +199,14 @@ fn has_listless_cycle(edges: &[Vec<Edge>]) -> bool {
 
 /// GraphQL validity: every cycle must be breakable (contain a nullable or list edge); @oneOf types
 /// need a member that terminates — the `leaf` member always does.
-fn breakable(edges: &[Vec<Edge>]) -> bool {
+fn breakable(edges: &[Vec<Vec<Edge>>]) -> bool {
     let n = edges.len();
     for s in 0..n {
         let mut stack = vec![s];
         let mut seen = vec![false; n];
         while let Some(c) = stack.pop() {
             for j in 0..n {
-                if edges[c][j] == Edge::NonNull {
+                if edges[c][j].contains(&Edge::NonNull) {
                     if j == s {
                         return false;
                     }
@@ -202,7 +221,7 @@ fn breakable(edges: &[Vec<Edge>]) -> bool {
     true
 }
 
-fn graph_item(edges: &[Vec<Edge>], one_of: &[bool], label: &str) -> Option<Item> {
+fn graph_item(edges: &[Vec<Vec<Edge>>], one_of: &[bool], label: &str) -> Option<Item> {
     let world = graph_world(edges, one_of)?;
     let valid = breakable(edges);
     let mut base = base_from_world(world, Opts::default(), Delivery::Library);
@@ -246,7 +265,7 @@ fn classify_compile(item: &Item, res: &CaseResult) -> Option<String> {
 }
 
 pub fn run(report: &mut Report, replay: Option<&Value>) {
-    report.rule = "input graphs: every graph on <= 2 input types with edge kinds {none, T, T!, [T], [T!]!} per ordered pair x @oneOf flags (exhaustive; @oneOf with non-null members skipped as invalid), random graphs on 3-4 types; fragment recursion: self (nullable / list fields, next to other fields or alone), mutual pairs. Oracle: (i) syn analysis of the emitted items finds no cycle through edges that are not under Box / Vec (all cases; a flagged case is confirmed by rustc before it is reported); (ii) rustc accepts every flagged case and a sample of the rest; (iii) recursive values of depth 0-3 built from JSON serialise back to the same JSON. Non-trivial: the graph has a cycle that does not pass through a list edge; distinct by graph / case hash.".into();
+    report.rule = "input graphs: every graph on <= 2 input types where an ordered pair carries no edge, one edge of kind {T, T!, [T], [T!]!}, or a list edge plus a plain edge in either declaration order, x @oneOf flags (exhaustive; @oneOf with non-null members skipped as invalid), random multi-edge graphs on 3-4 types; fragment recursion: self (nullable / list fields, next to other fields or alone), mutual pairs. Oracle: (i) syn analysis of the emitted items finds no cycle through edges that are not under Box / Vec (all cases; a flagged case is confirmed by rustc before it is reported); (ii) rustc accepts every flagged case and a sample of the rest; (iii) recursive values of depth 0-3 built from JSON serialise back to the same JSON. Non-trivial: the graph has a cycle that does not pass through a list edge; distinct by graph / case hash.".into();
     report.assumptions = vec!["rustc 1.95 decides finite size (E0072)".into()];
     if let Some(v) = replay {
         replay_e1(report, v);
@@ -256,18 +275,23 @@ pub fn run(report: &mut Report, replay: Option<&Value>) {
     let hooks = Hooks { classify: &classify, classify_compile: &classify_compile, compile_failure_is_violation: true, rebuild: None };
 
     // ---- (a) input graphs: in-process syn analysis on all, compile flagged + sample
-    let mut graphs: Vec<(Vec<Vec<Edge>>, Vec<bool>, String)> = Vec::new();
-    for a in EDGES {
-        graphs.push((vec![vec![a]], vec![false], format!("1:{:?}", a)));
-        graphs.push((vec![vec![a]], vec![true], format!("1:{:?}:oneof", a)));
+    let mut graphs: Vec<(Vec<Vec<Vec<Edge>>>, Vec<bool>, String)> = Vec::new();
+    let single: Vec<Vec<Edge>> = EDGES.iter().map(|e| if *e == Edge::None { vec![] } else { vec![*e] }).collect();
+    let multi = pair_options();
+    for a in &multi {
+        graphs.push((vec![vec![a.clone()]], vec![false], format!("1:{:?}", a)));
+        graphs.push((vec![vec![a.clone()]], vec![true], format!("1:{:?}:oneof", a)));
     }
-    for aa in EDGES {
-        for ab in EDGES {
-            for ba in EDGES {
-                for bb in EDGES {
+    // two types: cross edges from the full option set (incl. list + plain pairs in both field
+    // orders); self edges single in the quick tier, full in the thorough tier
+    let self_opts = if report.thorough() { &multi } else { &single };
+    for aa in self_opts {
+        for ab in &multi {
+            for ba in &multi {
+                for bb in self_opts {
                     for oo in 0..4 {
                         let one_of = vec![oo & 1 != 0, oo & 2 != 0];
-                        graphs.push((vec![vec![aa, ab], vec![ba, bb]], one_of, format!("2:{:?},{:?},{:?},{:?}:{}", aa, ab, ba, bb, oo)));
+                        graphs.push((vec![vec![aa.clone(), ab.clone()], vec![ba.clone(), bb.clone()]], one_of, format!("2:{:?},{:?},{:?},{:?}:{}", aa, ab, ba, bb, oo)));
                     }
                 }
             }
@@ -278,7 +302,7 @@ pub fn run(report: &mut Report, replay: Option<&Value>) {
     for tp in sample_tapes(report.seed, 0xC12, n_random, 64) {
         let mut t = Tape::new(&tp);
         let n = t.range(3, 4);
-        let edges: Vec<Vec<Edge>> = (0..n).map(|_| (0..n).map(|_| EDGES[t.weighted(&[40, 20, 15, 15, 10])]).collect()).collect();
+        let edges: Vec<Vec<Vec<Edge>>> = (0..n).map(|_| (0..n).map(|_| if t.chance(45) { vec![] } else { t.pick(&multi).clone() }).collect()).collect();
         let one_of: Vec<bool> = (0..n).map(|_| t.chance(20)).collect();
         graphs.push((edges, one_of, format!("r:{}", crate::tape::hex(&tp))));
     }
@@ -289,7 +313,7 @@ pub fn run(report: &mut Report, replay: Option<&Value>) {
         if let Some(w) = graph_world(edges, one_of) {
             let sdl = w.schema.to_sdl(&SdlStyle::default());
             let q = render_document(&w.doc, &w.schema, &QueryStyle { trivia: None });
-            jobs.push(Job { schema_path: scratch.file(&sdl, "graphql"), query: QuerySrc::Text(q), opts: Opts::default() });
+            jobs.push(Job { schema_path: scratch.file(&sdl, "graphql"), query: QuerySrc::Text(q), opts: Opts::default(), cwd: None });
             idx.push(gi);
         }
     }
@@ -320,7 +344,7 @@ pub fn run(report: &mut Report, replay: Option<&Value>) {
     report.extra.insert("input_graphs_analysed".into(), json!(idx.len()));
     report.extra.insert("input_graphs_exhaustive".into(), json!(n_exhaustive));
     report.extra.insert("input_graphs_flagged_by_syn".into(), json!(flagged));
-    report.extra.insert("exhaustive_subspaces".into(), json!(["input graphs on <= 2 types x 5 edge kinds per ordered pair x @oneOf flags"]));
+    report.extra.insert("exhaustive_subspaces".into(), json!(["input graphs on <= 2 types; per ordered pair: no edge, one of {T, T!, [T], [T!]!}, or a list edge plus a plain edge in either field order (self edges: single kinds in the quick tier); x @oneOf flags"]));
     to_compile.truncate(60);
     // sample of unflagged graphs with a list-less cycle (they exercise Box)
     let want = if report.thorough() { 600 } else { 110 };
